@@ -14,5 +14,6 @@ DIRECTED = [['nw:1:128:0:', 'rc', 'rc', 'lg:1:1000:2:128:5:01000000', 'co:', 'rc
 def run(ctx): return run_session_property(ctx, CHECKS, dict(vary=lambda i, rng: dict(use_log=(i % 2 == 0), rotate=True)), 'a rotated output is not self-contained / events lost or duplicated across outputs', extra_cases=DIRECTED)
 def search(ctx):
     c2 = Ctx(ctx.pid, 'quick', ctx.seed + 1, random.Random(ctx.seed + 99), ctx.drivers, True); c2.n = lambda q, t: 6000
-    return [v for v in run(c2)['violations'] if v[1]]
+    found = [v for v in run(c2)['violations'] if v[1]]
+    return found or inside_search(ctx, CHECKS, 'a rotated output is not self-contained / metadata handling is not safe against concurrent registration')
 def replay(ctx, rp): return session_replay(ctx, rp, CHECKS)
